@@ -366,6 +366,21 @@ fn tree_checks<F: Scalar, L: Label>(p: &Params, mk: impl Fn(usize) -> L) {
         }
     }
 
+    // rep > 1: the training rows again inside a larger batch (each row `rep` times, rotated by one): batch sizes
+    // beyond what the symbolic training set has
+    let rep = p.u("rep", 1);
+    if rep > 1 && w.wellformed {
+        let m = c.n * rep;
+        let big = Array2::from_shape_fn((m, c.d), |(r, j)| d.x[((r + 1) % c.n, j)]);
+        let pb = tree.predict(&big);
+        check_bool("c14.predict returns one label per row (large batch)", pb.len() == m);
+        for r in 0..m.min(pb.len()) {
+            let want = w.row_leaf[(r + 1) % c.n].and_then(|q| w.leaves[q].pred);
+            let got = class_labels.iter().position(|x| *x == pb[r]);
+            check_bool("c14.predict sends every training row to the label of the leaf it was routed to while fitting (large batch)", want.is_some() && got == want);
+        }
+    }
+
     // importances
     if !w.splits.is_empty() {
         let imp = tree.feature_importance();
